@@ -790,6 +790,11 @@ func (w *_assembler) BeginList(sizeHint int64) (datamodel.ListAssembler, error) 
 		// we should be able to safely assume we're dealing with a Go slice here,
 		// so _listAssembler can append to that
 		val := w.createNonPtrVal()
+		if val.IsNil() {
+			// A list that was begun is present even if it stays empty; a nil slice
+			// would read back as absent or null where the slice itself is the nilable.
+			val.Set(reflect.MakeSlice(val.Type(), 0, 0))
+		}
 		return &_listAssembler{
 			cfg:        w.cfg,
 			schemaType: typ,
@@ -1112,6 +1117,9 @@ func (w *_assembler) AssignBytes(p []byte) error {
 			// Any means the Go type must receive a datamodel.Node
 			w.createNonPtrVal().Set(reflect.ValueOf(basicnode.NewBytes(p)))
 		} else {
+			if p == nil {
+				p = []byte{} // empty bytes are present; nil would read back as absent or null in a nilable position
+			}
 			w.createNonPtrVal().SetBytes(p)
 		}
 	}
